@@ -1,5 +1,5 @@
 (* Proofs about the text side of the kustomization file reader/writer (Edit/Kustfile.v):
-   which comment lines parseCommentedFields keeps, which it forgets, and what marshal emits. *)
+   which comment lines parseCommentedFields attaches to fields, which are trailing, and what marshal emits. *)
 From KV Require Import Edit.Kustfile.
 Local Open Scope list_scope.
 
@@ -34,11 +34,11 @@ Proof.
         rewrite <- !app_assoc. reflexivity.
 Qed.
 
-(* the comment lines of a file, in order = the kept ones, in order, followed by the forgotten ones *)
+(* the comment lines of a file, in order = those attached to fields, followed by the trailing ones *)
 Lemma comments_kept_or_forgotten :
-  forall f, comment_lines f = kept_comments (parse_commented_fields f) ++ forgotten_comments f.
+  forall f, comment_lines f = kept_comments (parse_commented_fields f) ++ trailing_kept f.
 Proof.
-  intros f. unfold comment_lines, kept_comments, parse_commented_fields, forgotten_comments.
+  intros f. unfold comment_lines, kept_comments, parse_commented_fields, trailing_kept.
   rewrite app_assoc. rewrite pcf_loop_comments. simpl. reflexivity.
 Qed.
 
@@ -200,20 +200,22 @@ Definition trailing_comments (f : file) : list line :=
   end.
 
 Lemma forgotten_is_trailing :
-  forall f, existsb is_field_line (f_lines f) = true -> forgotten_comments f = trailing_comments f.
+  forall f, existsb is_field_line (f_lines f) = true -> trailing_kept f = trailing_comments f.
 Proof.
-  intros f H. unfold forgotten_comments, trailing_comments.
+  intros f H. unfold trailing_kept, trailing_comments.
   rewrite pcf_pending_is_trailing by assumption. reflexivity.
 Qed.
 
 (* ---------- marshal ---------- *)
 
 Lemma kept_in_marshal :
-  forall orig render l, In l (kept_comments orig) -> In l (marshal orig render).
+  forall orig tr render l, In l (kept_comments orig ++ tr) -> In l (marshal orig tr render).
 Proof.
-  intros orig render l H. unfold marshal, marshal_in. apply in_or_app. left.
-  unfold kept_comments in H. apply in_flat_map in H. destruct H as [c [Hc Hl]].
-  apply in_flat_map. exists c. split; [exact Hc|]. apply in_or_app. left. exact Hl.
+  intros orig tr render l H. unfold marshal, marshal_in. apply in_app_or in H. destruct H as [H|H].
+  - apply in_or_app. left.
+    unfold kept_comments in H. apply in_flat_map in H. destruct H as [c [Hc Hl]].
+    apply in_flat_map. exists c. split; [exact Hc|]. apply in_or_app. left. exact Hl.
+  - apply in_or_app. right. apply in_or_app. left. exact H.
 Qed.
 
 Lemma filter_app {A} (p : A -> bool) (l1 l2 : list A) : filter p (l1 ++ l2) = filter p l1 ++ filter p l2.
@@ -226,19 +228,23 @@ Proof.
 Qed.
 
 (* when no rendered field contains a comment-looking line, the comment lines of the output are
-   exactly the kept comments, in their original order *)
+   exactly the comments attached to fields followed by the trailing ones, in their original order *)
 Lemma marshal_comment_lines :
-  forall orig render,
+  forall orig tr render,
     (forall c, In c orig -> Forall (fun l => is_comment_or_blank l = true) (cf_comment c)) ->
+    Forall (fun l => is_comment_or_blank l = true) tr ->
     (forall n l, In l (render n) -> is_comment_or_blank l = false) ->
-    filter is_comment_or_blank (marshal orig render) = kept_comments orig.
+    filter is_comment_or_blank (marshal orig tr render) = kept_comments orig ++ tr.
 Proof.
-  intros orig render Hk Hr. unfold marshal, marshal_in. rewrite filter_app.
+  intros orig tr render Hk Ht Hr. unfold marshal, marshal_in. rewrite !filter_app.
   assert (filter is_comment_or_blank
             (flat_map (fun n => if has_field orig n then [] else render n) gen_field_order) = []) as E2.
   { apply filter_none. intros x Hx. apply in_flat_map in Hx. destruct Hx as [n [_ Hx]].
     destruct (has_field orig n); [destruct Hx|]. exact (Hr n x Hx). }
-  rewrite E2, app_nil_r. clear E2. unfold kept_comments.
+  rewrite E2, app_nil_r. clear E2.
+  rewrite (forallb_filter_id is_comment_or_blank tr)
+    by (apply forallb_forall; rewrite Forall_forall in Ht; exact Ht).
+  f_equal. unfold kept_comments.
   induction orig as [|c t IH]; simpl; [reflexivity|].
   rewrite !filter_app. rewrite IH by (intros; apply Hk; right; assumption).
   rewrite (filter_none _ (render (cf_field c))) by (intros x Hx; exact (Hr _ x Hx)).
@@ -249,31 +255,39 @@ Qed.
 
 (* every line of the output is a kept comment or a line of a rendered field *)
 Lemma marshal_lines_origin :
-  forall orig render l, In l (marshal orig render) ->
-    In l (kept_comments orig) \/ exists n, In l (render n).
+  forall orig tr render l, In l (marshal orig tr render) ->
+    In l (kept_comments orig ++ tr) \/ exists n, In l (render n).
 Proof.
-  intros orig render l H. unfold marshal, marshal_in in H. apply in_app_or in H. destruct H as [H|H].
+  intros orig tr render l H. unfold marshal, marshal_in in H. apply in_app_or in H. destruct H as [H|H].
   - apply in_flat_map in H. destruct H as [c [Hc Hl]]. apply in_app_or in Hl. destruct Hl as [Hl|Hl].
-    + left. unfold kept_comments. apply in_flat_map. exists c. split; assumption.
+    + left. apply in_or_app. left. unfold kept_comments. apply in_flat_map. exists c. split; assumption.
     + right. exists (cf_field c). exact Hl.
-  - apply in_flat_map in H. destruct H as [n [_ Hl]]. destruct (has_field orig n); [destruct Hl|].
-    right. exists n. exact Hl.
+  - apply in_app_or in H. destruct H as [H|H].
+    + left. apply in_or_app. right. exact H.
+    + apply in_flat_map in H. destruct H as [n [_ Hl]]. destruct (has_field orig n); [destruct Hl|].
+      right. exists n. exact Hl.
 Qed.
 
-(* marshal emits the rendering of every name of the order list, once per occurrence in the
-   original file or once at the end: [layout] makes that structure explicit *)
-Definition layout_of (orig : list cfield) : list (list line * string) :=
-  map (fun c => (cf_comment c, cf_field c)) orig ++
-  map (fun n => ([], n)) (filter (fun n => negb (has_field orig n)) gen_field_order).
+(* marshal's output as a layout: blocks of comment lines followed by the rendering of at most one
+   field — the original fields, the trailing comments (no field), the remaining ordered fields *)
+Definition layout_of (orig : list cfield) (tr : list line) : list (list line * option string) :=
+  map (fun c => (cf_comment c, Some (cf_field c))) orig ++
+  [(tr, None)] ++
+  map (fun n => ([], Some n)) (filter (fun n => negb (has_field orig n)) gen_field_order).
+
+Definition render_opt (render : string -> list line) (o : option string) : list line :=
+  match o with Some n => render n | None => [] end.
 
 Lemma marshal_as_layout :
-  forall orig render,
-    marshal orig render = flat_map (fun b => fst b ++ render (snd b)) (layout_of orig).
+  forall orig tr render,
+    marshal orig tr render = flat_map (fun b => fst b ++ render_opt render (snd b)) (layout_of orig tr).
 Proof.
-  intros orig render. unfold marshal, marshal_in, layout_of. rewrite flat_map_app. f_equal.
+  intros orig tr render. unfold marshal, marshal_in, layout_of. rewrite !flat_map_app. f_equal.
   - induction orig; simpl; [reflexivity|]. rewrite IHorig. reflexivity.
-  - induction gen_field_order as [|n t IH]; simpl; [reflexivity|].
-    destruct (has_field orig n); simpl; rewrite IH; reflexivity.
+  - f_equal.
+    + simpl. rewrite !app_nil_r. reflexivity.
+    + induction gen_field_order as [|n t IH]; simpl; [reflexivity|].
+      destruct (has_field orig n); simpl; rewrite IH; reflexivity.
 Qed.
 
 Lemma has_field_in : forall orig n, has_field orig n = true -> In n (map cf_field orig).
@@ -285,24 +299,43 @@ Qed.
 
 (* every name of the order list occurs in the layout *)
 Lemma layout_covers_order :
-  forall orig n, In n gen_field_order -> In n (map snd (layout_of orig)).
+  forall orig tr n, In n gen_field_order -> In (Some n) (map snd (layout_of orig tr)).
 Proof.
-  intros orig n H. unfold layout_of. rewrite map_app. apply in_or_app.
+  intros orig tr n H. unfold layout_of. rewrite !map_app. apply in_or_app.
   destruct (has_field orig n) eqn:Hf.
-  - left. rewrite map_map. cbn [snd]. apply has_field_in. exact Hf.
-  - right. rewrite map_map. cbn [snd]. rewrite map_id. apply filter_In. split; [exact H|].
+  - left. rewrite map_map. cbn [snd]. apply in_map_iff. apply has_field_in in Hf.
+    apply in_map_iff in Hf. destruct Hf as [c [Ec Hc]]. exists c. split; [rewrite Ec; reflexivity|exact Hc].
+  - right. apply in_or_app. right. rewrite map_map. cbn [snd]. apply in_map. apply filter_In. split; [exact H|].
     rewrite Hf. reflexivity.
 Qed.
 
-Local Transparent find_matched_field.
+(* the trailing comments are comment lines of the file *)
+Lemma trailing_are_comments :
+  forall f l, In l (trailing_kept f) -> is_comment_or_blank l = true /\ (In l (f_lines f) \/ f_tail f = Some l).
+Proof.
+  intros f l H.
+  assert (In l (comment_lines f)) as Hc.
+  { rewrite comments_kept_or_forgotten. apply in_or_app. right. exact H. }
+  unfold comment_lines in Hc. apply in_app_or in Hc. destruct Hc as [Hc|Hc].
+  - apply filter_In in Hc. destruct Hc as [Hi Hc]. split; [exact Hc|left; exact Hi].
+  - destruct (f_tail f) as [s|]; [|destruct Hc].
+    destruct (is_comment_or_blank s) eqn:E; [|destruct Hc]. destruct Hc as [Hc|[]]. subst l.
+    split; [exact E|right; reflexivity].
+Qed.
 
-(* ---------- the refutation witness of "every comment line survives a rewrite" ---------- *)
+(* ---------- the former refutation witness (finding trailing-comment-dropped, fixed by f15d834):
+   its trailing comment is now kept ---------- *)
 Definition witness_file : file := mkFile ["resources:"; "- a.yaml"; "# trailing comment"] None.
 
-Lemma witness_forgets :
-  forgotten_comments witness_file = ["# trailing comment"] /\
-  parse_commented_fields witness_file = [mkCf "Resources" []].
-Proof. split; vm_compute; reflexivity. Qed.
+Lemma witness_kept :
+  trailing_kept witness_file = ["# trailing comment"] /\
+  parse_commented_fields witness_file = [mkCf "Resources" []] /\
+  forall render, In "# trailing comment"
+                    (marshal (parse_commented_fields witness_file) (trailing_kept witness_file) render).
+Proof.
+  split; [vm_compute; reflexivity|]. split; [vm_compute; reflexivity|].
+  intro render. apply kept_in_marshal. apply in_or_app. right. vm_compute. left. reflexivity.
+Qed.
 
 (* non-vacuity of [forgotten_is_trailing] and of the kept/forgotten decomposition *)
 Example decomposition_example :
@@ -310,6 +343,6 @@ Example decomposition_example :
                    "namespace: foo"; "# trailing"] (Some "# tail") in
   existsb is_field_line (f_lines f) = true /\
   kept_comments (parse_commented_fields f) = ["# head"; "# inner"; ""; "# before ns"] /\
-  forgotten_comments f = ["# trailing"; "# tail"] /\
+  trailing_kept f = ["# trailing"; "# tail"] /\
   trailing_comments f = ["# trailing"; "# tail"].
 Proof. vm_compute. repeat split; reflexivity. Qed.
